@@ -21,7 +21,14 @@ from . import _c04_base as B
 FIXT = ((1024, 65537), (1024, 3), (1025, 65537), (1025, 3), (1031, 65537), (1031, 3),
         (1032, 65537), (1032, 3), (2048, 65537), (2048, 3))
 
+# thorough tier only: moduli found by the deterministic search of _find_small().  1026..1030 complete the residues of the
+# bit length mod 8 (1024, 1025, 1031, 1032 are fixtures): 8*emLen - emBits of EMSA-PSS takes every value 0..7; 1536 / 2049 /
+# 3072 / 4096 bits: other word counts of the multi-precision code, a second modulus with k = emLen + 1
+GEN_T = tuple((b, e) for b in (1026, 1027, 1028, 1029, 1030) for e in (65537, 3)) + ((1536, 65537), (2049, 65537), (3072, 65537),
+                                                                                    (4096, 65537))
+
 _KEYS = None
+_THOROUGH_KEYS = False
 _LIB = {}
 
 
@@ -39,11 +46,11 @@ def norm_key(kd):
     return kd
 
 
-def _find_small(label, bits, e):
+def _find_small(label, bits, e, variant=0):
     """deterministic (seed-independent) small key: the first primes after fixed starting points"""
     out = []
     for i, b in enumerate(((bits + 1) // 2, bits // 2)):
-        c = nt.next_prime((0xFFFF << (b - 16)) | (0x1234567 * (i + 3) << 8))
+        c = nt.next_prime((0xFFFF << (b - 16)) | (0x1234567 * (i + 3 + 2 * variant) << 8))
         while nt.gcd(e, c - 1) != 1 or c in out:
             c = nt.next_prime(c)
         out.append(c)
@@ -51,12 +58,17 @@ def _find_small(label, bits, e):
     return {"name": label, "n": p * q, "e": e, "d": nt.inverse(e, nt.lcm(p - 1, q - 1)), "p": p, "q": q}
 
 
-def build_keys(acc):
-    global _KEYS
-    if _KEYS is not None:
+def build_keys(acc, thorough=False):
+    global _KEYS, _THOROUGH_KEYS
+    if _KEYS is not None and (_THOROUGH_KEYS or not thorough):
         return _KEYS
     from ..keys import rsa_components
     ks = {}
+    if thorough:
+        for bits, e in GEN_T:
+            ks[keyname(bits, e)] = norm_key(_find_small(keyname(bits, e), bits, e, variant=(1 if e == 3 else 0)))
+            if ks[keyname(bits, e)]["bits"] != bits:
+                acc.error("generated key %s has %d bits" % (keyname(bits, e), ks[keyname(bits, e)]["bits"]))
     for bits, e in FIXT:
         c = rsa_components(bits, e)
         ks[keyname(bits, e)] = norm_key({"name": keyname(bits, e), "n": c["n"], "e": c["e"], "d": c["d"],
@@ -77,7 +89,10 @@ def build_keys(acc):
         bad = R.rsa_check_key(kd["n"], kd["e"], kd["d"], kd["p"], kd["q"])
         if bad:
             acc.error("key %s fails the reference consistency check: %s" % (name, bad))
+    if len({(kd["n"], kd["e"]) for kd in ks.values()}) != len(ks) or len({kd["n"] for kd in ks.values()}) != len(ks):
+        acc.error("two RSA keys of the grid share a modulus")
     _KEYS = ks
+    _THOROUGH_KEYS = bool(thorough)
     return ks
 
 
@@ -87,10 +102,10 @@ def keymat(kd):
 
 def libkey(kd, private=True):
     from Crypto.PublicKey import RSA
-    ent = _LIB.get(kd["n"])
+    ent = _LIB.get((kd["n"], kd["e"]))
     if ent is None:
         key = RSA.construct((kd["n"], kd["e"], kd["d"], kd["p"], kd["q"]), consistency_check=True)
-        ent = _LIB[kd["n"]] = (key, key.public_key())
+        ent = _LIB[(kd["n"], kd["e"])] = (key, key.public_key())
     return ent[0] if private else ent[1]
 
 
@@ -655,6 +670,24 @@ def _tally(acc, scheme, kd, hn, tag, verdict, reason, res):
     acc.seen("reasons", (scheme, reason))
 
 
+def _sliced(cands, sl):
+    """cands: tuples whose first element is the tag.  With a slice (part, nparts) the structured candidates belong to part 0
+    and the i-th single-bit flip to part i mod nparts (the parts of one alphabet are separate shards)"""
+    if sl is None:
+        for c in cands:
+            yield c
+        return
+    part, nparts = sl
+    i = 0
+    for c in cands:
+        if c[0] in ("bit-flip", "em-bit-flip"):
+            if i % nparts == part:
+                yield c
+            i += 1
+        elif part == 0:
+            yield c
+
+
 def worker(shards):
     acc = Acc()
     keys = _KEYS
@@ -664,9 +697,13 @@ def worker(shards):
         kind = sh[0]
         kd = keys[sh[1]]
         flipmode = "all"
+        # optional 7th element: (part, nparts) slice of the bit-flip alphabets (thorough tier, large moduli)
+        sl = tuple(sh[6]) if len(sh) > 6 and sh[6] else None
+        first = sl is None or sl[0] == 0
         if kind == "v15":
-            # ("v15", key, hash, message names, what) ; what subset of {"sig", "flips", "forge", "emflips"}
-            _, _, hn, mnames, what, other = sh
+            # ("v15", key, hash, message names, what, other key[, slice]) ; what subset of {"sig", "flips", "forge", "emflips"}
+            _, _, hn, mnames, what, other = sh[:6]
+            acc.seen("v15_cfgs", (kd["bits"], kd["e"], hn))
             for mn in mnames:
                 msg = msgs[mn]
                 sig = v15_sign_case(kd, hn, msg, acc)
@@ -678,8 +715,9 @@ def worker(shards):
                     continue
                 _tally(acc, "v15", kd, hn, "authentic", *v15_verify_case(kd, hn, msg, sig, "authentic", acc, demand=True))
                 if "sig" in what:
-                    for tag, c in rsa_sig_candidates(kd, sig, flipmode if "flips" in what else None):
+                    for tag, c in _sliced(rsa_sig_candidates(kd, sig, flipmode if "flips" in what else None), sl):
                         _tally(acc, "v15", kd, hn, tag, *v15_verify_case(kd, hn, msg, c, tag, acc, demand=(tag == "authentic")))
+                if "sig" in what and first:
                     om = B.other_message(msg)
                     _tally(acc, "v15", kd, hn, "other-message", *v15_verify_case(kd, hn, om, sig, "other-message", acc))
                     for oh in ("sha256", "sha3_256", "sha1", "sha512_256"):
@@ -691,7 +729,7 @@ def worker(shards):
                     cands = list(v15_forgeries(kd, hn, msg))
                     if "emflips" in what:
                         cands += list(em_flips(cands[0][1], flipmode))
-                    for tag, em in cands:
+                    for tag, em in _sliced(cands, sl):
                         if em is None or len(em) != kd["k"]:
                             acc.count("forgery_not_constructible")
                             continue
@@ -703,9 +741,11 @@ def worker(shards):
                                                                                  demand=(tag == "authentic")))
             last = {"part": "pkcs1_15", "key": kd["name"], "hash": hn, "messages": list(mnames), "what": list(what)}
         elif kind == "pss":
-            _, _, cfg, mnames, what, other = sh
+            _, _, cfg, mnames, what, other = sh[:6]
             cfg = tuple(cfg)
+            bitslice = sl
             hn, mgfh, sl, em_bits, em_len = pss_params(kd, cfg)
+            acc.seen("pss_cfgs", (kd["bits"], kd["e"], hn, mgfh, sl))
             for mn in mnames:
                 msg = msgs[mn]
                 sig = None
@@ -723,8 +763,9 @@ def worker(shards):
                     acc.seen("classes", ("pss-salt-does-not-fit", kd["bits"], hn, str(cfg[2])))
                     continue
                 if "sig" in what:
-                    for tag, c in rsa_sig_candidates(kd, sig, flipmode if "flips" in what else None):
+                    for tag, c in _sliced(rsa_sig_candidates(kd, sig, flipmode if "flips" in what else None), bitslice):
                         _tally(acc, "pss", kd, hn, tag, *pss_verify_case(kd, cfg, msg, c, tag, acc, demand=(tag == "authentic")))
+                if "sig" in what and first:
                     _tally(acc, "pss", kd, hn, "other-message",
                            *pss_verify_case(kd, cfg, B.other_message(msg), sig, "other-message", acc))
                     _tally(acc, "pss", kd, hn, "other-key", *pss_verify_case(keys[other], cfg, msg, sig, "other-key", acc))
@@ -744,7 +785,7 @@ def worker(shards):
                     if "emflips" in what and cands and cands[0][1] is not None:
                         em0 = R.i2osp(cands[0][1], em_len)
                         cands += [(t, R.os2ip(e), False) for t, e in em_flips(em0, flipmode)]
-                    for tag, m, made in cands:
+                    for tag, m, made in _sliced(cands, bitslice):
                         if m is None:
                             acc.count("forgery_not_constructible")
                             continue
